@@ -34,9 +34,10 @@ type gg struct {
 	latest    map[string]*yaml.Node // anchor name -> latest definition so far (document order)
 	names     []string
 	open      map[*yaml.Node]bool // anchored nodes still being generated (ancestors)
+	mergeSeqs map[*yaml.Node]bool // anchored sequences used as merge values (sequences of merge sources)
 	backEdges bool
 	nodes     int
-	stats     struct{ backValue, backMerge, aliasKey, inlineMerge, repeatedMerge, nestedSeqMerge, redefined, rawKey int }
+	stats     struct{ backValue, backMerge, aliasKey, inlineMerge, repeatedMerge, nestedSeqMerge, redefined, rawKey, seqMergeCycle int }
 }
 
 var anchorNames = []string{"a0", "a1", "a2", "a3", "a4", "a5", "a6", "a7"}
@@ -122,6 +123,17 @@ func (g *gg) node(depth int) *yaml.Node {
 func (g *gg) mergeValue(depth int) *yaml.Node {
 	isMap := func(n *yaml.Node) bool { return n.Kind == yaml.MappingNode && (g.backEdges || !g.open[n]) }
 	alias := func() *yaml.Node {
+		// now and then a source is itself an anchored merge-value sequence (possibly the one being written)
+		if g.intn("seqsrc", 0, 5) == 0 {
+			if t := g.pickAnchor("mseq", func(n *yaml.Node) bool {
+				return g.mergeSeqs[n] && g.latest[n.Anchor] == n && (g.backEdges || !g.open[n])
+			}); t != nil {
+				if g.open[t] {
+					g.stats.seqMergeCycle++
+				}
+				return doc.AliasNode(t)
+			}
+		}
 		t := g.pickAnchor("msrc", isMap)
 		if t == nil {
 			return nil
@@ -131,6 +143,14 @@ func (g *gg) mergeValue(depth int) *yaml.Node {
 		}
 		return doc.AliasNode(t)
 	}
+	// anchorSeq anchors a merge-value sequence before its items are written, so an item can refer back to it
+	anchorSeq := func(s *yaml.Node) {
+		if g.intn("anchorseq", 0, 2) == 0 {
+			g.anchor(s)
+			g.open[s] = true
+			g.mergeSeqs[s] = true
+		}
+	}
 	switch g.intn("mform", 0, 6) {
 	case 0, 1, 2:
 		if a := alias(); a != nil {
@@ -138,12 +158,18 @@ func (g *gg) mergeValue(depth int) *yaml.Node {
 		}
 	case 3, 4:
 		s := doc.SeqNode(true)
+		anchorSeq(s)
 		for i, c := 0, g.intn("nsrc", 1, 3); i < c; i++ {
 			if a := alias(); a != nil {
 				s.Content = append(s.Content, a)
 			}
 		}
+		delete(g.open, s)
 		if len(s.Content) > 0 {
+			return s
+		}
+		if s.Anchor != "" {
+			// an empty anchored sequence is still a legal merge value (no sources)
 			return s
 		}
 	case 5:
@@ -293,7 +319,7 @@ var rec = ev.New("TestPropAnchorGraphs", "anchor/alias/merge graphs generated as
 
 func TestPropAnchorGraphs(t *testing.T) {
 	ev.Check(t, 30000, 200000, func(t *rapid.T) {
-		g := &gg{t: t, latest: map[string]*yaml.Node{}, open: map[*yaml.Node]bool{}}
+		g := &gg{t: t, latest: map[string]*yaml.Node{}, open: map[*yaml.Node]bool{}, mergeSeqs: map[*yaml.Node]bool{}}
 		g.backEdges = rapid.IntRange(0, 3).Draw(t, "backedges") == 0
 		root := doc.MapNode(false)
 		for i, c := 0, rapid.IntRange(2, 7).Draw(t, "nfrag"); i < c; i++ {
@@ -413,6 +439,9 @@ func TestPropAnchorGraphs(t *testing.T) {
 		}
 		if g.stats.redefined > 0 {
 			cls = append(cls, "anchor-redefined")
+		}
+		if g.stats.seqMergeCycle > 0 {
+			cls = append(cls, "merge-cycle-through-sequence")
 		}
 		rec.Case(ev.HashBytes(d.YAML), nt, cls...)
 		rec.MaybeSample(nt, func() any { return string(d.YAML[:min(len(d.YAML), 1200)]) })
